@@ -332,6 +332,13 @@ def handle (toks : List String) : String :=
       let out := Direct.transform fwd corr xs.size (dr.getD 0 1.0) (fun i => xs.getD i 0.0)
       s!"ok 1 {xs.size} " ++ showFloats ((List.range xs.size).map out)
     | _, _, _, _ => "bad-op"
+  -- shiftlin k f <row…>   →  order-1 sub-pixel shift of a zero-extended row by k + f
+  | "shiftlin" :: k :: f :: rest =>
+    match k.toInt?, parseFloat f, parseFloats rest with
+    | some k, some f, some xs =>
+      let x : Int → Float := fun i => if 0 ≤ i ∧ i < xs.size then xs.getD i.toNat 0.0 else 0.0
+      s!"ok 1 {xs.size} " ++ showFloats ((List.range xs.size).map fun (i : Nat) => shiftLin k f x (Int.ofNat i))
+    | _, _, _ => "bad-op"
   -- bordas dr <row…>   →  onion_bordas_transform(shift_grid=False) of one row
   | "bordas" :: dr :: rest =>
     match parseFloats [dr], parseFloats rest with
